@@ -94,8 +94,8 @@ def _model_verdicts(ck, res, label):
         ck.note({"model_counterexample": r["tag"], "history": [_short(e) for e in r["h"]]})
 
 
-SLIM = dict(ConvHows='{"to"}', DPfx="{TRUE}", DScales="{2}", AddScales="{2}", ModScales="{4}", ReadKeys='{"kfoo", "km"}', ReadProbes='{"kfoo", "kfoo/km"}', BinP='{"foo", "m"}', BinF='{"mul", "add"}', CopyP='{"kfoo"}')
-FULL = dict(ConvHows='{"to", "in_units", "to_value", "convert_to_units"}', DPfx="{FALSE, TRUE}", DScales="{2, 4}", AddScales="{2, 4}", ModScales="{2, 4}", ReadKeys='{"foo", "kfoo", "m", "km"}', ReadProbes='{"foo", "kfoo", "m", "km", "foo*m", "kfoo/km"}', BinP='{"foo", "kfoo", "m"}', BinF='{"mul", "div", "add"}', CopyP='{"foo", "kfoo", "m"}')
+SLIM = dict(ConvHows='{"to"}', PickleP='{"kfoo", "m"}', DPfx="{TRUE}", DScales="{2}", AddScales="{2}", ModScales="{4}", ReadKeys='{"kfoo", "km"}', ReadProbes='{"kfoo", "kfoo/km"}', BinP='{"foo", "m"}', BinF='{"mul", "add"}', CopyP='{"kfoo"}')
+FULL = dict(ConvHows='{"to", "in_units", "to_value", "convert_to_units"}', PickleP='{"foo", "kfoo", "m", "km"}', DPfx="{FALSE, TRUE}", DScales="{2, 4}", AddScales="{2, 4}", ModScales="{2, 4}", ReadKeys='{"foo", "kfoo", "m", "km"}', ReadProbes='{"foo", "kfoo", "m", "km", "foo*m", "kfoo/km"}', BinP='{"foo", "kfoo", "m"}', BinF='{"mul", "div", "add"}', CopyP='{"foo", "kfoo", "m"}')
 
 
 def _write_cfg(ck, name, MaxRegs=2, MaxLen=3, ExportLen=3, Mixed="TRUE", Namespaces="TRUE", Editing="TRUE", WarmSet="{FALSE}", export="state", alphabet=None):
@@ -155,7 +155,7 @@ def run(ck):
         return n
 
     quick = ck.tier == "quick"
-    LRU = dict(FULL, BinP='{"m"}', BinF='{"mul", "add"}', CopyP='{"m"}')
+    LRU = dict(FULL, BinP='{"m"}', BinF='{"mul", "add"}', CopyP='{"m"}', PickleP='{"m"}')
     # (1) exhaustive bounded state spaces (history hidden by VIEW; kind of the last call and creation routes visible)
     covers = [
         # routes x edits: the creation route of every registry is part of the state, no mixed operations
@@ -164,13 +164,13 @@ def run(ck):
     ]
     if quick:
         # mixed operations: creation route hidden, histories ending in a binary operation / re-binding / conversion
-        covers.append(("mixed3-slim", dict(MaxRegs=2, MaxLen=3, ExportLen=3, Namespaces="FALSE", alphabet=dict(SLIM, BinF='{"mul"}'), export="mixed"),
+        covers.append(("mixed3-slim", dict(MaxRegs=2, MaxLen=3, ExportLen=3, Namespaces="FALSE", alphabet=dict(SLIM, BinF='{"mul"}', PickleP='{"kfoo"}'), export="mixed"),
                        "state space MaxRegs=2 MaxLen=3 with mixed operations, slim alphabet, cover of the states reached by a mixed operation"))
         ck.cov["bound"] = [{"MaxRegs": 2, "MaxLen": 3, "alphabet": "slim, no namespaces", "mixed": False, "routes_visible": True}, {"MaxRegs": 2, "MaxLen": 3, "alphabet": "slim, mul only", "mixed": True, "routes_visible": False}]
     else:
         covers.append(("cover3-full", dict(MaxRegs=2, MaxLen=3, ExportLen=3, alphabet=FULL, export="state2"),
                        "state space MaxRegs=2 MaxLen=3 full alphabet incl. mixed operations, state cover export"))
-        covers.append(("cover4-warm", dict(MaxRegs=2, MaxLen=4, ExportLen=4, Namespaces="FALSE", Editing="FALSE", WarmSet="{FALSE, TRUE}", alphabet=dict(SLIM, BinP='{"m"}', CopyP='{"m"}'), export="mixed"),
+        covers.append(("cover4-warm", dict(MaxRegs=2, MaxLen=4, ExportLen=4, Namespaces="FALSE", Editing="FALSE", WarmSet="{FALSE, TRUE}", alphabet=dict(SLIM, BinP='{"m"}', CopyP='{"m"}', PickleP='{"m"}'), export="mixed"),
                        "state space MaxRegs=2 MaxLen=4, creations + mixed operations with warm/cold lru memos, cover of the states reached by a mixed operation"))
         ck.cov["bound"] = [{"MaxRegs": 2, "MaxLen": 3, "alphabet": "slim", "mixed": False, "routes_visible": True}, {"MaxRegs": 2, "MaxLen": 3, "alphabet": "full", "mixed": True, "routes_visible": False}, {"MaxRegs": 2, "MaxLen": 4, "alphabet": "creations + mixed operations on m, warm/cold", "routes_visible": False}]
     # (2) beyond the bound: TLC's simulator, 3 custom registries, lru memos warm or cold
